@@ -388,7 +388,11 @@ async fn catch_up_sub_anew(
     matcher: &MatcherHandle,
     evt_tx: &mpsc::Sender<(Bytes, QueryEventMeta)>,
 ) -> Result<ChangeId, CatchUpError> {
-    let (q_tx, mut q_rx) = mpsc::channel(10240);
+    #[cfg(not(feature = "verif"))]
+    let q_cap = 10240;
+    #[cfg(feature = "verif")]
+    let q_cap = klukai_types::verif::catchup_buffer();
+    let (q_tx, mut q_rx) = mpsc::channel(q_cap);
 
     let task = tokio::spawn({
         let evt_tx = evt_tx.clone();
@@ -421,7 +425,11 @@ async fn catch_up_sub_from(
     from: ChangeId,
     evt_tx: &mpsc::Sender<(Bytes, QueryEventMeta)>,
 ) -> Result<ChangeId, CatchUpError> {
-    let (q_tx, mut q_rx) = mpsc::channel(10240);
+    #[cfg(not(feature = "verif"))]
+    let q_cap = 10240;
+    #[cfg(feature = "verif")]
+    let q_cap = klukai_types::verif::catchup_buffer();
+    let (q_tx, mut q_rx) = mpsc::channel(q_cap);
 
     let task = tokio::spawn({
         let evt_tx = evt_tx.clone();
